@@ -38,6 +38,9 @@ pub fn install_panic_hook() {
         } else {
             "<non-string panic>".to_string()
         };
+        if std::env::var_os("SIMX_PANIC_PRINT").is_some() {
+            eprintln!("panic: {msg} @ {loc}");
+        }
         PANICS.with(|p| p.borrow_mut().push(format!("{msg} @ {loc}")));
     }));
 }
